@@ -44,6 +44,15 @@ CLAIMED = {
  "C14": ("principal/argument provenance, must-pass-through for not-applicable and bearer precedence (with phi-edge reasoning), sibling event-sequence agreement, constant/encoder identity on the client writers",
          "Static: decides callback-only principals, exact credential hand-over, header>query>form precedence, plain/Ctx agreement, shared header constant and StdEncoding, default-credential gating; string round-trip equality is not decided.",
          "Trusts go/types+go/ssa; net/http BasicAuth/FormValue as documented.", "DESIGN.md §2 C14"),
+ "C15": ("error-discipline (every fallible call's error reaches the return), defer-before-I/O pairing for stream and source closing, reflect-API validity typestate, buffer-privacy provenance on SSA of the built-in codecs",
+         "Static: decides that codec errors are returned, streams are closed iff requested and closable sources always, typed-nil/nil operands yield errors, stored bytes never alias; round-trip equality is the stdlib encoders' and not decided.",
+         "Trusts go/types+go/ssa; encoding/json, xml, yaml.v3, bytes, io as documented.", "DESIGN.md §2 C15"),
+ "C16": ("must-pass-through (options applied before use, per object incl. captured ones), reflect slice typestate, retention-by-copy provenance, error discipline with io.EOF absorption, pipe-end pairing in goroutines on SSA of the CSV codec",
+         "Static: decides that every source/destination kind sees the same options, SetCap/SetLen typestate, overwrite of destinations, copy-on-retain, returned parser errors and closed pipe ends; record equality with encoding/csv is not decided.",
+         "Trusts go/types+go/ssa; encoding/csv, errgroup as documented.", "DESIGN.md §2 C16"),
+ "C19": ("argument provenance of the five verify pairs, must-pass-through (all categories on success), no-early-exit loop rules, who-may-write on the registry tables, normalisation agreement between writers and readers, tabled request-time failure sites over the call graph",
+         "Static: decides that validate compares the right tables with the right requirement lists completely, that Register*/readers normalise identically and are the only writers, and that request-time failure sites are exactly the tabled ones; set arithmetic on concrete inputs is not decided.",
+         "Trusts go/types+go/ssa; go-openapi/analysis requirement lists.", "DESIGN.md §2 C19"),
  "C17": ("typestate (open/closed) and delegation-target analysis on SSA of HasBody and peekingReader, nil-receiver contradiction rule",
          "Static: decides single-buffer delegation, non-consuming probe, fast-path conditions, close-once state machine and nil-receiver safety on all paths; byte sequences under chunking are bufio's and not decided.",
          "Trusts go/types+go/ssa; bufio.Reader as documented.", "DESIGN.md §2 C17"),
